@@ -16,8 +16,11 @@ for d in sorted(glob.glob('/verif/seeded/*-m*')):
     assert subprocess.run(['git', '-C', '/repo', 'diff', '--quiet']).returncode == 0, 'repo dirty'
     subprocess.run(['git', '-C', '/repo', 'apply', d + '/patch.diff'], check=True)
     env = dict(os.environ, VERIF_MIN_BUDGET_S='10')
+    ev = f'/verif/evidence/{prop}.json'
+    saved = open(ev).read() if os.path.exists(ev) else None
     p = subprocess.run(['./check', prop, 'quick'], cwd='/verif', capture_output=True, text=True, env=env)
     subprocess.run(['git', '-C', '/repo', 'checkout', '--', '.'], check=True)
+    if saved is not None: open(ev, 'w').write(saved)  # evidence files describe the unchanged tree
     sigs = re.findall(r'signature: (\S+) \((\d+) run', p.stdout)
     summary = [l for l in p.stdout.splitlines() if l.startswith('check ')]
     meta = {
